@@ -253,6 +253,20 @@ func runC14(c *Ctx) error {
 					}
 				}
 				m.text = gram.Join(m.toks, lo)
+				if lo == nil && c.Rng.Intn(12) == 0 {
+					// a physical line of more than 64 KiB (a comment) somewhere between two
+					// definitions: what follows it is still part of the file
+					var starts []int
+					for k := 0; k < len(m.text)-1; k++ {
+						if m.text[k] == '\n' {
+							starts = append(starts, k+1)
+						}
+					}
+					if len(starts) > 0 {
+						at := starts[c.Rng.Intn(len(starts))]
+						m.text = m.text[:at] + "// " + strings.Repeat("long comment ", 5200) + "\n" + m.text[at:]
+					}
+				}
 				// an inserted comment opener that meets a "*/" further on (in a literal, a comment
 				// of the layout, an inserted stray closer) is a well-formed comment: what is left of
 				// the file is then not judged
